@@ -36,3 +36,37 @@ Theorem C05_clone : forall c tp s1 s2 h,
 Proof. exact run_clone. Qed.
 Print Assumptions C05_clone.
 
+
+(** ** nothing but the inputs and the consumed part of the random stream influences the result
+
+    The random stream is the oracle tape; [pos] is the next position to be
+    read. A call reads the tape only between [pos s] and [pos s'], in order
+    ([C05_pos_mono]), and its result -- new state and actions -- is the same
+    for every tape that agrees on that segment ([C05_tape_local]); a whole
+    life from Framework::new depends on the tape only through the prefix it
+    consumed ([C05_life]); and even failing outcomes are unaffected by
+    anything the tape holds before the current position ([C05_tape_suffix]).
+    The model has no other input: no wall clock, no global state. *)
+From MB Require Proofs.TapeLocal.
+
+Theorem C05_pos_mono : forall c tp s evs t s' acts,
+  trigger_events c tp s evs t = Ok (s', acts) -> (pos s <= pos s')%nat.
+Proof. exact TapeLocal.trigger_events_pos_mono. Qed.
+
+Theorem C05_tape_local : forall c tp tp' s evs t s' acts,
+  trigger_events c tp s evs t = Ok (s', acts) ->
+  TapeLocal.agree tp tp' (pos s) (pos s') ->
+  trigger_events c tp' s evs t = Ok (s', acts).
+Proof. exact TapeLocal.trigger_events_tape_local. Qed.
+Print Assumptions C05_tape_local.
+
+Theorem C05_life : forall c tp tp' t0 h s0 s' outs,
+  fnew c tp t0 = Ok s0 -> run c tp s0 h = Ok (s', outs) -> TapeLocal.agree tp tp' 0 (pos s') ->
+  fnew c tp' t0 = Ok s0 /\ run c tp' s0 h = Ok (s', outs).
+Proof. exact TapeLocal.life_tape_local. Qed.
+Print Assumptions C05_life.
+
+Theorem C05_tape_suffix : forall c tp tp' s evs t,
+  TapeLocal.agree_from tp tp' (pos s) -> trigger_events c tp' s evs t = trigger_events c tp s evs t.
+Proof. exact TapeLocal.trigger_events_tape_suffix. Qed.
+Print Assumptions C05_tape_suffix.
